@@ -478,4 +478,767 @@ theorem grp_run : ∀ (grp : List (String × Rec α)) (s : St String α) (ops : 
 
 end
 
+section
+variable {α : Type} [LT α] [DecidableLT α] [OfNat α 0] [Mul α] [Transc α]
+
+/-! ### what the fitting loop leaves behind, field by field -/
+
+def gkeys (grp : List (String × Rec α)) : List String := grp.map (·.1)
+
+def foldTable (grp : List (String × Rec α)) (ps : List (Param String α)) : List (Param String α) :=
+  grp.foldl (fun ps nr => modifyParam ps nr.1 (describeParam nr.2)) ps
+
+def foldPriors (t : Table String α) (grp : List (String × Rec α)) : Table String α :=
+  grp.foldl (fun t nr => match nr.2.prior with
+    | some p => tset t nr.1 p
+    | none => t) t
+
+theorem applyRec_fields (s : St String α) (n : String) (r : Rec α) :
+    (applyRec s n r).model = modifyParam s.model n (describeParam r) ∧
+    (applyRec s n r).obs = modifyParam s.obs n (describeParam r) ∧
+    (applyRec s n r).dmodel = s.dmodel ∧ (applyRec s n r).dobs = s.dobs ∧
+    (applyRec s n r).userPriors = (match r.prior with | some p => tset s.userPriors n p | none => s.userPriors) ∧
+    (applyRec s n r).compiled = s.compiled ∧ (applyRec s n r).compiledPriors = s.compiledPriors ∧
+    (applyRec s n r).derivedCompiled = s.derivedCompiled := by
+  unfold applyRec withPrior applyEff
+  cases r.prior <;> simp
+
+theorem applyGrp_fields : ∀ (grp : List (String × Rec α)) (s : St String α),
+    (applyGrp s grp).model = foldTable grp s.model ∧ (applyGrp s grp).obs = foldTable grp s.obs ∧
+    (applyGrp s grp).dmodel = s.dmodel ∧ (applyGrp s grp).dobs = s.dobs ∧
+    (applyGrp s grp).userPriors = foldPriors s.userPriors grp := by
+  intro grp
+  induction grp with
+  | nil => intro s; simp [applyGrp, foldTable, foldPriors]
+  | cons nr t ih =>
+    intro s
+    obtain ⟨n, r⟩ := nr
+    obtain ⟨f1, f2, f3, f4, f5, _⟩ := applyRec_fields s n r
+    obtain ⟨i1, i2, i3, i4, i5⟩ := ih (applyRec s n r)
+    simp only [applyGrp, foldTable, foldPriors, List.foldl_cons] at *
+    rw [i1, i2, i3, i4, i5, f1, f2, f3, f4, f5]
+    simp
+
+theorem getRec_none_of_not_mem (grp : List (String × Rec α)) (n : String) (h : n ∉ gkeys grp) : getRec grp n = none := by
+  induction grp with
+  | nil => rfl
+  | cons kr t ih =>
+    obtain ⟨k, r⟩ := kr
+    simp only [gkeys, List.map_cons, List.mem_cons, not_or] at h
+    have hk : ¬ k = n := fun e => h.1 e.symm
+    simp only [getRec, hk, if_false]
+    exact ih h.2
+
+/-- with distinct names, the calls made one parameter after the other amount to rewriting every mentioned tuple once -/
+theorem foldTable_eq_describe : ∀ (grp : List (String × Rec α)) (ps : List (Param String α)), (gkeys grp).Nodup →
+    foldTable grp ps = describeTable grp ps := by
+  intro grp
+  induction grp with
+  | nil =>
+    intro ps _
+    simp [foldTable, describeTable, getRec]
+  | cons kr t ih =>
+    intro ps hnd
+    obtain ⟨n, r⟩ := kr
+    simp only [gkeys, List.map_cons, List.nodup_cons] at hnd
+    have hstep : foldTable ((n, r) :: t) ps = foldTable t (modifyParam ps n (describeParam r)) := by
+      simp [foldTable]
+    rw [hstep, ih _ hnd.2]
+    unfold describeTable modifyParam
+    rw [List.map_map]
+    apply List.map_congr_left
+    intro p _
+    by_cases hp : p.name = n
+    · have hnone : getRec t n = none := getRec_none_of_not_mem t n hnd.1
+      simp [hp, describeParam_name, getRec, hnone]
+    · have hp' : ¬ n = p.name := fun e => hp e.symm
+      simp [hp, getRec, hp']
+
+theorem tset_not_mem (t : Table String α) (n : String) (p : Prior α) (h : n ∉ t.map (·.1)) : tset t n p = t ++ [(n, p)] := by
+  induction t with
+  | nil => rfl
+  | cons kq t ih =>
+    obtain ⟨k, q⟩ := kq
+    simp only [List.map_cons, List.mem_cons, not_or] at h
+    have hk : ¬ k = n := fun e => h.1 e.symm
+    simp [tset, hk, ih h.2]
+
+theorem describePriors_keys (grp : List (String × Rec α)) : ∀ k ∈ (describePriors grp).map (·.1), k ∈ gkeys grp := by
+  induction grp with
+  | nil => intro k hk; simp [describePriors] at hk
+  | cons nr t ih =>
+    obtain ⟨n, r⟩ := nr
+    intro k hk
+    cases hp : r.prior with
+    | none =>
+      simp only [describePriors, hp] at hk
+      simp only [gkeys, List.map_cons, List.mem_cons]
+      right; exact ih k hk
+    | some p =>
+      simp only [describePriors, hp, List.map_cons, List.mem_cons] at hk
+      simp only [gkeys, List.map_cons, List.mem_cons]
+      rcases hk with hk | hk
+      · left; exact hk
+      · right; exact ih k hk
+
+theorem foldPriors_eq : ∀ (grp : List (String × Rec α)) (t : Table String α), (gkeys grp).Nodup →
+    (∀ k ∈ gkeys grp, k ∉ t.map (·.1)) → foldPriors t grp = t ++ describePriors grp := by
+  intro grp
+  induction grp with
+  | nil => intro t _ _; simp [foldPriors, describePriors]
+  | cons nr rest ih =>
+    intro t hnd hdis
+    obtain ⟨n, r⟩ := nr
+    simp only [gkeys, List.map_cons, List.nodup_cons] at hnd
+    have hn : n ∉ t.map (·.1) := hdis n (by simp [gkeys])
+    have hrest : ∀ k ∈ gkeys rest, k ∉ t.map (·.1) := fun k hk => hdis k (by simp only [gkeys, List.map_cons, List.mem_cons]; right; exact hk)
+    cases hp : r.prior with
+    | none =>
+      have : foldPriors t ((n, r) :: rest) = foldPriors t rest := by simp [foldPriors, hp]
+      rw [this, ih t hnd.2 hrest]
+      simp [describePriors, hp]
+    | some p =>
+      have : foldPriors t ((n, r) :: rest) = foldPriors (tset t n p) rest := by simp [foldPriors, hp]
+      rw [this, tset_not_mem t n p hn]
+      rw [ih (t ++ [(n, p)]) hnd.2 ?_]
+      · simp [describePriors, hp]
+      · intro k hk
+        simp only [List.map_append, List.map_cons, List.map_nil, List.mem_append, List.mem_singleton, not_or]
+        refine ⟨hrest k hk, ?_⟩
+        intro e
+        apply hnd.1
+        rw [← e]; exact hk
+
+/-! ### the records have distinct names -/
+
+theorem gkeys_updRec (acc : List (String × Rec α)) (n : String) (f : Rec α → Rec α) :
+    gkeys (updRec acc n f) = if n ∈ gkeys acc then gkeys acc else gkeys acc ++ [n] := by
+  induction acc with
+  | nil => simp [updRec, gkeys]
+  | cons kr t ih =>
+    obtain ⟨k, r⟩ := kr
+    by_cases hk : k = n
+    · simp [updRec, gkeys, hk]
+    · have hk' : ¬ n = k := fun e => hk e.symm
+      simp only [updRec, hk, if_false, gkeys, List.map_cons, List.mem_cons, hk', false_or] at ih ⊢
+      by_cases hm : n ∈ List.map (fun x => x.1) t
+      · simp only [hm, if_true] at ih ⊢; rw [ih]
+      · simp only [hm, if_false] at ih ⊢; rw [ih]; simp
+
+theorem nodup_updRec (acc : List (String × Rec α)) (n : String) (f : Rec α → Rec α) (h : (gkeys acc).Nodup) :
+    (gkeys (updRec acc n f)).Nodup := by
+  rw [gkeys_updRec]
+  by_cases hm : n ∈ gkeys acc
+  · simp [hm, h]
+  · simp only [hm, if_false]
+    apply List.nodup_append.2
+    refine ⟨h, by simp, ?_⟩
+    intro a ha b hb hab
+    simp only [List.mem_singleton] at hb
+    rw [hab, hb] at ha
+    exact hm ha
+
+theorem nodup_parseFitting (mkPrior : OptVal α → Option (Prior α)) : ∀ (ents : List (String × OptVal α))
+    (acc grp : List (String × Rec α)), (gkeys acc).Nodup → parseFitting mkPrior ents acc = .ok grp → (gkeys grp).Nodup := by
+  intro ents
+  induction ents with
+  | nil =>
+    intro acc grp h hp
+    simp only [parseFitting, Except.ok.injEq] at hp
+    rw [← hp]; exact h
+  | cons kv rest ih =>
+    intro acc grp h hp
+    obtain ⟨k, v⟩ := kv
+    simp only [parseFitting] at hp
+    cases hs : splitKey k with
+    | none => simp [hs] at hp
+    | some ab =>
+      obtain ⟨a, b⟩ := ab
+      simp only [hs] at hp
+      cases ho : setOpt mkPrior ⟨a, b, v⟩ ((getRec acc a).getD {}) with
+      | none => simp [ho] at hp
+      | some r =>
+        simp only [ho] at hp
+        exact ih _ grp (nodup_updRec acc a _ h) hp
+
+end
+
+section
+variable {α : Type} [LT α] [DecidableLT α] [OfNat α 0] [Mul α] [Transc α]
+
+/-! ### the [Derive] loop -/
+
+def dnames (ds : List (Derived String)) : List String := ds.map (·.name)
+
+/-- no derived parameter of the model shares its name with one of the observation -/
+def DisjD (s : St String α) : Prop := ∀ n, n ∈ dnames s.dmodel → n ∉ dnames s.dobs
+
+def KnownD (s : St String α) (n : String) : Prop := n ∈ dnames s.dmodel ∨ n ∈ dnames s.dobs
+
+def setCompute (n : String) (c : Bool) (d : Derived String) : Derived String :=
+  if d.name = n then { d with compute := c } else d
+
+def applyD (s : St String α) (n : String) (c : Bool) : St String α :=
+  { s with dmodel := s.dmodel.map (setCompute n c), dobs := s.dobs.map (setCompute n c) }
+
+theorem map_setCompute_not_mem (ds : List (Derived String)) (n : String) (c : Bool) (h : n ∉ dnames ds) :
+    ds.map (setCompute n c) = ds := by
+  conv => rhs; rw [← List.map_id ds]
+  apply List.map_congr_left
+  intro d hd
+  have : d.name ≠ n := by
+    intro e; apply h; rw [← e]; exact List.mem_map_of_mem (f := (·.name)) hd
+  simp [setCompute, this]
+
+theorem dnames_setCompute (ds : List (Derived String)) (n : String) (c : Bool) :
+    dnames (ds.map (setCompute n c)) = dnames ds := by
+  unfold dnames
+  rw [List.map_map]
+  apply List.map_congr_left
+  intro d _
+  by_cases h : d.name = n <;> simp [setCompute, h]
+
+theorem hasDerived_iff' (ds : List (Derived String)) (n : String) : hasDerived ds n = true ↔ n ∈ dnames ds :=
+  hasDerived_iff ds n
+
+theorem withDerived_known (s : St String α) (hd : DisjD s) (n : String) (c : Bool) (hk : KnownD s n) :
+    withDerived s n c = (applyD s n c, .ok) := by
+  unfold withDerived applyD
+  by_cases hm : hasDerived s.dmodel n = true
+  · have hno : n ∉ dnames s.dobs := hd n ((hasDerived_iff' _ _).1 hm)
+    have := map_setCompute_not_mem s.dobs n c hno
+    simp only [hm, if_true]
+    unfold setCompute at this ⊢
+    rw [this]
+  · have hm' : hasDerived s.dmodel n = false := by simpa using hm
+    have hnm : n ∉ dnames s.dmodel := fun h => hm ((hasDerived_iff' _ _).2 h)
+    have ho : n ∈ dnames s.dobs := by
+      rcases hk with h | h
+      · exact absurd h hnm
+      · exact h
+    have ho' : hasDerived s.dobs n = true := (hasDerived_iff' _ _).2 ho
+    have := map_setCompute_not_mem s.dmodel n c hnm
+    simp only [hm', Bool.false_eq_true, if_false, ho', if_true]
+    unfold setCompute at this ⊢
+    rw [this]
+
+theorem withDerived_unknown (s : St String α) (n : String) (c : Bool) (hk : ¬ KnownD s n) :
+    withDerived s n c = (s, .keyError) := by
+  have h1 : hasDerived s.dmodel n = false := by
+    cases h : hasDerived s.dmodel n
+    · rfl
+    · exact absurd (Or.inl ((hasDerived_iff' _ _).1 h)) hk
+  have h2 : hasDerived s.dobs n = false := by
+    cases h : hasDerived s.dobs n
+    · rfl
+    · exact absurd (Or.inr ((hasDerived_iff' _ _).1 h)) hk
+  simp [withDerived, h1, h2]
+
+theorem DisjD_applyD {s : St String α} (h : DisjD s) (n : String) (c : Bool) : DisjD (applyD s n c) := by
+  intro m hm
+  simp only [applyD, dnames_setCompute] at hm ⊢
+  exact h m hm
+
+theorem KnownD_applyD (s : St String α) (n m : String) (c : Bool) : KnownD (applyD s n c) m ↔ KnownD s m := by
+  simp [KnownD, applyD, dnames_setCompute]
+
+/-- the derive loop: records without a `compute` value make no call -/
+def applyDs (s : St String α) : List (String × Option (OptVal α)) → St String α
+  | [] => s
+  | (_, none) :: t => applyDs s t
+  | (n, some v) :: t => applyDs (applyD s n (truthy v)) t
+
+theorem step_derived_known (s : St String α) (hd : DisjD s) (n : String) (v : OptVal α) (hk : KnownD s n) :
+    step s (if truthy v then Op.enableDerived n else Op.disableDerived n) = (applyD s n (truthy v), .ok) := by
+  by_cases ht : truthy v = true
+  · simp only [ht, if_true, step]; exact withDerived_known s hd n true hk
+  · have ht' : truthy v = false := by simpa using ht
+    simp only [ht', Bool.false_eq_true, if_false, step]; exact withDerived_known s hd n false hk
+
+theorem step_derived_unknown (s : St String α) (n : String) (v : OptVal α) (hk : ¬ KnownD s n) :
+    step s (if truthy v then Op.enableDerived n else Op.disableDerived n) = (s, .keyError) := by
+  by_cases ht : truthy v = true
+  · simp only [ht, if_true, step]; exact withDerived_unknown s n true hk
+  · have ht' : truthy v = false := by simpa using ht
+    simp only [ht', Bool.false_eq_true, if_false, step]; exact withDerived_unknown s n false hk
+
+theorem derive_run : ∀ (drecs : List (String × Option (OptVal α))) (s : St String α), DisjD s →
+    ((runStop s (deriveOps drecs)).2.1 = .ok →
+      (∀ nv ∈ drecs, nv.2 ≠ none → KnownD s nv.1) ∧ (runStop s (deriveOps drecs)).1 = applyDs s drecs) ∧
+    ((∃ nv ∈ drecs, nv.2 ≠ none ∧ ¬ KnownD s nv.1) → (runStop s (deriveOps drecs)).2.1 ≠ .ok) := by
+  intro drecs
+  induction drecs with
+  | nil => intro s _; simp [deriveOps, runStop, applyDs]
+  | cons nv t ih =>
+    intro s hd
+    obtain ⟨n, ov⟩ := nv
+    cases ov with
+    | none =>
+      obtain ⟨i1, i2⟩ := ih s hd
+      simp only [deriveOps, applyDs]
+      constructor
+      · intro hok
+        obtain ⟨j1, j2⟩ := i1 hok
+        refine ⟨?_, j2⟩
+        intro x hx hne
+        simp only [List.mem_cons] at hx
+        rcases hx with rfl | hx
+        · exact absurd rfl hne
+        · exact j1 x hx hne
+      · rintro ⟨x, hx, hne, hxk⟩
+        simp only [List.mem_cons] at hx
+        rcases hx with rfl | hx
+        · exact absurd rfl hne
+        · exact i2 ⟨x, hx, hne, hxk⟩
+    | some v =>
+      simp only [deriveOps, applyDs]
+      by_cases hk : KnownD s n
+      · have hs := step_derived_known s hd n v hk
+        rw [runStop_cons_ok s _ _ _ hs]
+        obtain ⟨i1, i2⟩ := ih (applyD s n (truthy v)) (DisjD_applyD hd n _)
+        constructor
+        · intro hok
+          obtain ⟨j1, j2⟩ := i1 hok
+          refine ⟨?_, j2⟩
+          intro x hx hne
+          simp only [List.mem_cons] at hx
+          rcases hx with rfl | hx
+          · exact hk
+          · exact (KnownD_applyD s n x.1 _).1 (j1 x hx hne)
+        · rintro ⟨x, hx, hne, hxk⟩
+          simp only [List.mem_cons] at hx
+          rcases hx with rfl | hx
+          · exact absurd hk hxk
+          · exact i2 ⟨x, hx, hne, fun hh => hxk ((KnownD_applyD s n x.1 _).1 hh)⟩
+      · have hs := step_derived_unknown s n v hk
+        rw [runStop_cons_err s s _ _ .keyError (by decide) hs]
+        constructor
+        · intro hok; simp [outOf] at hok
+        · intro _; simp [outOf]
+
+def dkeys (drecs : List (String × Option (OptVal α))) : List String := drecs.map (·.1)
+
+theorem getD_none_of_not_mem (drecs : List (String × Option (OptVal α))) (n : String) (h : n ∉ dkeys drecs) :
+    FittingSection.getD drecs n = none := by
+  induction drecs with
+  | nil => rfl
+  | cons kc t ih =>
+    obtain ⟨k, c⟩ := kc
+    simp only [dkeys, List.map_cons, List.mem_cons, not_or] at h
+    have hk : ¬ k = n := fun e => h.1 e.symm
+    simp only [FittingSection.getD, hk, if_false]
+    exact ih h.2
+
+theorem applyDs_fields : ∀ (drecs : List (String × Option (OptVal α))) (s : St String α), (dkeys drecs).Nodup →
+    (applyDs s drecs).dmodel = describeDerived drecs s.dmodel ∧ (applyDs s drecs).dobs = describeDerived drecs s.dobs ∧
+    (applyDs s drecs).model = s.model ∧ (applyDs s drecs).obs = s.obs ∧ (applyDs s drecs).userPriors = s.userPriors := by
+  intro drecs
+  induction drecs with
+  | nil =>
+    intro s _
+    simp [applyDs, describeDerived, FittingSection.getD]
+  | cons nv t ih =>
+    intro s hnd
+    obtain ⟨n, ov⟩ := nv
+    simp only [dkeys, List.map_cons, List.nodup_cons] at hnd
+    have hnone : FittingSection.getD t n = none := getD_none_of_not_mem t n hnd.1
+    have key : ∀ (c : Option (OptVal α)) (ds : List (Derived String)),
+        describeDerived t (match c with | some v => ds.map (setCompute n (truthy v)) | none => ds) =
+          describeDerived ((n, c) :: t) ds := by
+      intro c ds
+      cases c with
+      | none =>
+        unfold describeDerived
+        apply List.map_congr_left
+        intro d _
+        by_cases hd : n = d.name
+        · subst hd
+          simp [FittingSection.getD, hnone]
+        · simp [FittingSection.getD, hd]
+      | some v =>
+        unfold describeDerived
+        rw [List.map_map]
+        apply List.map_congr_left
+        intro d _
+        by_cases hd : d.name = n
+        · simp [setCompute, hd, FittingSection.getD, hnone]
+        · have hd' : ¬ n = d.name := fun e => hd e.symm
+          simp [setCompute, hd, FittingSection.getD, hd']
+    cases ov with
+    | none =>
+      obtain ⟨i1, i2, i3, i4, i5⟩ := ih s hnd.2
+      simp only [applyDs]
+      refine ⟨?_, ?_, i3, i4, i5⟩
+      · rw [i1]; exact key none s.dmodel
+      · rw [i2]; exact key none s.dobs
+    | some v =>
+      obtain ⟨i1, i2, i3, i4, i5⟩ := ih (applyD s n (truthy v)) hnd.2
+      simp only [applyDs]
+      refine ⟨?_, ?_, by rw [i3]; rfl, by rw [i4]; rfl, by rw [i5]; rfl⟩
+      · rw [i1]; exact key (some v) s.dmodel
+      · rw [i2]; exact key (some v) s.dobs
+
+theorem dkeys_updD (acc : List (String × Option (OptVal α))) (l : Line α) :
+    dkeys (updD acc l) = if l.name ∈ dkeys acc then dkeys acc else dkeys acc ++ [l.name] := by
+  induction acc with
+  | nil => simp [updD, dkeys]
+  | cons kc t ih =>
+    obtain ⟨k, c⟩ := kc
+    by_cases hk : k = l.name
+    · simp [updD, dkeys, hk]
+    · have hk' : ¬ l.name = k := fun e => hk e.symm
+      simp only [updD, hk, if_false, dkeys, List.map_cons, List.mem_cons, hk', false_or] at ih ⊢
+      by_cases hm : l.name ∈ List.map (fun x => x.1) t
+      · simp only [hm, if_true] at ih ⊢; rw [ih]
+      · simp only [hm, if_false] at ih ⊢; rw [ih]; simp
+
+theorem nodup_deriveRecs : ∀ (ls : List (Line α)) (acc : List (String × Option (OptVal α))), (dkeys acc).Nodup →
+    (dkeys (deriveRecs ls acc)).Nodup := by
+  intro ls
+  induction ls with
+  | nil => intro acc h; exact h
+  | cons l rest ih =>
+    intro acc h
+    simp only [deriveRecs]
+    apply ih
+    rw [dkeys_updD]
+    by_cases hm : l.name ∈ dkeys acc
+    · simp [hm, h]
+    · simp only [hm, if_false]
+      apply List.nodup_append.2
+      refine ⟨h, by simp, ?_⟩
+      intro a ha b hb hab
+      simp only [List.mem_singleton] at hb
+      rw [hab, hb] at ha
+      exact hm ha
+
+end
+
+section
+variable {α : Type} [LT α] [DecidableLT α] [OfNat α 0] [Mul α] [Transc α]
+
+/-! ### `setup_optimizer` as a whole -/
+
+theorem parseFitting_error_ne_ok (mkPrior : OptVal α → Option (Prior α)) : ∀ (ents : List (String × OptVal α))
+    (acc : List (String × Rec α)) (e : SetupOut), parseFitting mkPrior ents acc = .error e → e ≠ .ok := by
+  intro ents
+  induction ents with
+  | nil => intro acc e h; simp [parseFitting] at h
+  | cons kv rest ih =>
+    intro acc e h
+    obtain ⟨k, v⟩ := kv
+    simp only [parseFitting] at h
+    cases hs : splitKey k with
+    | none => simp only [hs, Except.error.injEq] at h; rw [← h]; decide
+    | some ab =>
+      obtain ⟨a, b⟩ := ab
+      simp only [hs] at h
+      cases ho : setOpt mkPrior ⟨a, b, v⟩ ((getRec acc a).getD {}) with
+      | none => simp only [ho, Except.error.injEq] at h; rw [← h]; decide
+      | some r => simp only [ho] at h; exact ih _ e h
+
+theorem mem_gkeys_updRec (acc : List (String × Rec α)) (n m : String) (f : Rec α → Rec α) (h : m ∈ gkeys acc ∨ m = n) :
+    m ∈ gkeys (updRec acc n f) := by
+  rw [gkeys_updRec]
+  by_cases hm : n ∈ gkeys acc
+  · simp only [hm, if_true]
+    rcases h with h | h
+    · exact h
+    · rw [h]; exact hm
+  · simp only [hm, if_false, List.mem_append, List.mem_singleton]
+    exact h
+
+/-- every parameter named by a line has a record -/
+theorem parseFitting_names (mkPrior : OptVal α → Option (Prior α)) : ∀ (ents : List (String × OptVal α))
+    (acc grp : List (String × Rec α)), parseFitting mkPrior ents acc = .ok grp →
+    (∀ m ∈ gkeys acc, m ∈ gkeys grp) ∧
+    ∀ kv ∈ ents, ∀ a b, splitKey kv.1 = some (a, b) → a ∈ gkeys grp := by
+  intro ents
+  induction ents with
+  | nil =>
+    intro acc grp h
+    simp only [parseFitting, Except.ok.injEq] at h
+    subst h
+    exact ⟨fun m hm => hm, fun kv hkv => by simp at hkv⟩
+  | cons kv rest ih =>
+    intro acc grp h
+    obtain ⟨k, v⟩ := kv
+    simp only [parseFitting] at h
+    cases hs : splitKey k with
+    | none => simp [hs] at h
+    | some ab =>
+      obtain ⟨a, b⟩ := ab
+      simp only [hs] at h
+      cases ho : setOpt mkPrior ⟨a, b, v⟩ ((getRec acc a).getD {}) with
+      | none => simp [ho] at h
+      | some r =>
+        simp only [ho] at h
+        obtain ⟨i1, i2⟩ := ih _ grp h
+        refine ⟨fun m hm => i1 m (mem_gkeys_updRec acc a m _ (Or.inl hm)), ?_⟩
+        intro kv hkv a' b' hsp
+        simp only [List.mem_cons] at hkv
+        rcases hkv with rfl | hkv
+        · simp only [hs, Option.some.injEq, Prod.mk.injEq] at hsp
+          rw [← hsp.1]
+          exact i1 a (mem_gkeys_updRec acc a a _ (Or.inr rfl))
+        · exact i2 kv hkv a' b' hsp
+
+/-- a key that does not split makes `generate_fitting_parameters` raise -/
+theorem parseFitting_bad_key (mkPrior : OptVal α → Option (Prior α)) : ∀ (ents : List (String × OptVal α))
+    (acc : List (String × Rec α)), (∃ kv ∈ ents, splitKey kv.1 = none) → ∃ e, parseFitting mkPrior ents acc = .error e := by
+  intro ents
+  induction ents with
+  | nil => intro acc h; obtain ⟨kv, hkv, _⟩ := h; simp at hkv
+  | cons kv rest ih =>
+    intro acc h
+    obtain ⟨k, v⟩ := kv
+    simp only [parseFitting]
+    cases hs : splitKey k with
+    | none => exact ⟨_, rfl⟩
+    | some ab =>
+      obtain ⟨a, b⟩ := ab
+      simp only
+      cases ho : setOpt mkPrior ⟨a, b, v⟩ ((getRec acc a).getD {}) with
+      | none => exact ⟨_, rfl⟩
+      | some r =>
+        simp only
+        apply ih
+        obtain ⟨kv, hkv, hb⟩ := h
+        simp only [List.mem_cons] at hkv
+        rcases hkv with rfl | hkv
+        · simp [hs] at hb
+        · exact ⟨kv, hkv, hb⟩
+
+theorem applyGrp_names : ∀ (grp : List (String × Rec α)) (s : St String α), tableNames (applyGrp s grp) = tableNames s := by
+  intro grp
+  induction grp with
+  | nil => intro s; rfl
+  | cons nr t ih =>
+    intro s
+    obtain ⟨n, r⟩ := nr
+    simp only [applyGrp]
+    rw [ih, applyRec_names]
+
+/-- the stages of a successful `setup_optimizer` -/
+theorem setup_ok_stages (mkPrior : OptVal α → Option (Prior α)) (s : St String α) (hw : WF s) (hd : DisjD s)
+    (fitting derive : List (String × OptVal α)) (hok : (setupOptimizer mkPrior s fitting derive).2.1 = .ok) :
+    ∃ grp dl fops, parseFitting mkPrior fitting [] = .ok grp ∧ splitAll derive = some dl ∧ fittingOps grp = some fops ∧
+      (runStop s fops).2.1 = .ok ∧
+      (runStop (applyGrp s grp) (deriveOps (deriveRecs dl []))).2.1 = .ok ∧
+      (setupOptimizer mkPrior s fitting derive).1 = applyDs (applyGrp s grp) (deriveRecs dl []) := by
+  unfold setupOptimizer at hok ⊢
+  cases hp : parseFitting mkPrior fitting [] with
+  | error e =>
+    simp only [hp] at hok
+    exact absurd hok (parseFitting_error_ne_ok mkPrior fitting [] e hp)
+  | ok grp =>
+    simp only [hp] at hok ⊢
+    cases hf : fittingOps grp with
+    | none => simp [hf] at hok
+    | some fops =>
+      simp only [hf] at hok ⊢
+      cases hr : (runStop s fops).2.1 with
+      | ok =>
+        simp only [hr] at hok ⊢
+        obtain ⟨g1, _⟩ := grp_run grp s fops hw hf
+        obtain ⟨_, hst⟩ := g1 hr
+        cases hsd : splitAll derive with
+        | none => simp [hsd] at hok
+        | some dl =>
+          simp only [hsd] at hok ⊢
+          rw [hst] at hok ⊢
+          have hd' : DisjD (applyGrp s grp) := by
+            obtain ⟨_, _, f3, f4, _⟩ := applyGrp_fields grp s
+            intro n hn
+            simp only [f3, f4] at hn ⊢
+            exact hd n hn
+          obtain ⟨d1, _⟩ := derive_run (deriveRecs dl []) (applyGrp s grp) hd'
+          exact ⟨grp, dl, fops, rfl, rfl, hf, hr, hok, (d1 hok).2⟩
+      | keyError => simp [hr] at hok
+      | valueError => simp [hr] at hok
+      | priorError => simp [hr] at hok
+      | unsupported => simp [hr] at hok
+
+/-- after a successful `setup_optimizer` on a state without user priors, the settings are the ones the sections describe -/
+theorem setup_ok_settings (mkPrior : OptVal α → Option (Prior α)) (s : St String α) (hw : WF s) (hd : DisjD s)
+    (hu : s.userPriors = []) (fitting derive : List (String × OptVal α))
+    (hok : (setupOptimizer mkPrior s fitting derive).2.1 = .ok) :
+    ∃ grp dl, parseFitting mkPrior fitting [] = .ok grp ∧ splitAll derive = some dl ∧
+      settings (setupOptimizer mkPrior s fitting derive).1 = sectionSettings s grp (deriveRecs dl []) ∧
+      WF (setupOptimizer mkPrior s fitting derive).1 := by
+  obtain ⟨grp, dl, fops, hp, hsd, _, _, _, hst⟩ := setup_ok_stages mkPrior s hw hd fitting derive hok
+  refine ⟨grp, dl, hp, hsd, ?_, ?_⟩
+  · rw [hst]
+    have hgn : (gkeys grp).Nodup := nodup_parseFitting mkPrior fitting [] grp (by simp [gkeys]) hp
+    have hdn : (dkeys (deriveRecs dl ([] : List (String × Option (OptVal α))))).Nodup :=
+      nodup_deriveRecs dl [] (by simp [dkeys])
+    obtain ⟨a1, a2, a3, a4, a5⟩ := applyDs_fields (deriveRecs dl []) (applyGrp s grp) hdn
+    obtain ⟨g1, g2, g3, g4, g5⟩ := applyGrp_fields grp s
+    simp only [settings, sectionSettings, a1, a2, a3, a4, a5, g1, g2, g3, g4, g5, hu]
+    rw [foldTable_eq_describe grp _ hgn, foldTable_eq_describe grp _ hgn,
+      foldPriors_eq grp [] hgn (by intro k _; simp)]
+    simp
+  · rw [hst]
+    obtain ⟨a1, a2, a3, a4, a5⟩ := applyDs_fields (deriveRecs dl []) (applyGrp s grp)
+      (nodup_deriveRecs dl [] (by simp [dkeys]))
+    have hnames : tableNames (applyGrp s grp) = tableNames s := applyGrp_names grp s
+    unfold WF
+    rw [a3, a4]
+    exact WF_of_tableNames hnames hw
+
+end
+
+section
+variable {α : Type} [LT α] [DecidableLT α] [OfNat α 0] [Mul α] [Transc α]
+
+/-! ### unknown names and malformed keys -/
+
+theorem splitAll_none_of_bad : ∀ (ents : List (String × OptVal α)), (∃ kv ∈ ents, splitKey kv.1 = none) →
+    splitAll ents = none := by
+  intro ents
+  induction ents with
+  | nil => intro h; obtain ⟨kv, hkv, _⟩ := h; simp at hkv
+  | cons kv rest ih =>
+    intro h
+    obtain ⟨k, v⟩ := kv
+    simp only [splitAll]
+    cases hs : splitKey k with
+    | none => rfl
+    | some ab =>
+      have : splitAll rest = none := by
+        apply ih
+        obtain ⟨kv, hkv, hb⟩ := h
+        simp only [List.mem_cons] at hkv
+        rcases hkv with rfl | hkv
+        · simp [hs] at hb
+        · exact ⟨kv, hkv, hb⟩
+      simp [this]
+
+theorem splitAll_mem : ∀ (ents : List (String × OptVal α)) (ls : List (Line α)), splitAll ents = some ls →
+    ∀ kv ∈ ents, ∀ a b, splitKey kv.1 = some (a, b) → (⟨a, b, kv.2⟩ : Line α) ∈ ls := by
+  intro ents
+  induction ents with
+  | nil => intro ls _ kv hkv; simp at hkv
+  | cons kv rest ih =>
+    intro ls h x hx a b hsp
+    obtain ⟨k, v⟩ := kv
+    simp only [splitAll] at h
+    cases hs : splitKey k with
+    | none => simp [hs] at h
+    | some ab =>
+      cases hr : splitAll rest with
+      | none => simp [hs, hr] at h
+      | some ls' =>
+        obtain ⟨a', b'⟩ := ab
+        simp only [hs, hr, Option.some.injEq] at h
+        subst h
+        simp only [List.mem_cons] at hx
+        rcases hx with rfl | hx
+        · simp only [hs, Option.some.injEq, Prod.mk.injEq] at hsp
+          simp [hsp.1, hsp.2]
+        · exact List.mem_cons_of_mem _ (ih ls' hr x hx a b hsp)
+
+theorem updD_keeps_some (acc : List (String × Option (OptVal α))) (l : Line α) (a : String)
+    (h : ∃ v, (a, some v) ∈ acc) : ∃ v, (a, some v) ∈ updD acc l := by
+  induction acc with
+  | nil => obtain ⟨v, hv⟩ := h; simp at hv
+  | cons kc t ih =>
+    obtain ⟨k, c⟩ := kc
+    obtain ⟨v, hv⟩ := h
+    simp only [List.mem_cons] at hv
+    by_cases hk : k = l.name
+    · simp only [updD, hk, if_true]
+      rcases hv with hv | hv
+      · simp only [Prod.mk.injEq] at hv
+        by_cases ho : l.opt = "compute"
+        · exact ⟨l.val, by simp [ho, hv.1, ← hk]⟩
+        · exact ⟨v, by simp [ho, hv.1, ← hk, ← hv.2]⟩
+      · exact ⟨v, List.mem_cons_of_mem _ hv⟩
+    · simp only [updD, hk, if_false]
+      rcases hv with hv | hv
+      · exact ⟨v, by simp [hv]⟩
+      · obtain ⟨v', hv'⟩ := ih ⟨v, hv⟩
+        exact ⟨v', List.mem_cons_of_mem _ hv'⟩
+
+theorem updD_sets_some (acc : List (String × Option (OptVal α))) (l : Line α) (ho : l.opt = "compute") :
+    ∃ v, (l.name, some v) ∈ updD acc l := by
+  induction acc with
+  | nil => exact ⟨l.val, by simp [updD, ho]⟩
+  | cons kc t ih =>
+    obtain ⟨k, c⟩ := kc
+    by_cases hk : k = l.name
+    · exact ⟨l.val, by simp [updD, hk, ho]⟩
+    · obtain ⟨v, hv⟩ := ih
+      exact ⟨v, by simp only [updD, hk, if_false]; exact List.mem_cons_of_mem _ hv⟩
+
+theorem deriveRecs_some : ∀ (ls : List (Line α)) (acc : List (String × Option (OptVal α))) (a : String),
+    ((∃ l ∈ ls, l.opt = "compute" ∧ l.name = a) ∨ (∃ v, (a, some v) ∈ acc)) → ∃ v, (a, some v) ∈ deriveRecs ls acc := by
+  intro ls
+  induction ls with
+  | nil =>
+    intro acc a h
+    rcases h with ⟨l, hl, _⟩ | h
+    · simp at hl
+    · exact h
+  | cons l rest ih =>
+    intro acc a h
+    simp only [deriveRecs]
+    apply ih
+    rcases h with ⟨x, hx, ho, hn⟩ | h
+    · simp only [List.mem_cons] at hx
+      rcases hx with rfl | hx
+      · right; rw [← hn]; exact updD_sets_some acc x ho
+      · left; exact ⟨x, hx, ho, hn⟩
+    · right; exact updD_keeps_some acc l a h
+
+theorem mem_gkeys_exists (grp : List (String × Rec α)) (a : String) (h : a ∈ gkeys grp) : ∃ r, (a, r) ∈ grp := by
+  simp only [gkeys, List.mem_map] at h
+  obtain ⟨x, hx, rfl⟩ := h
+  exact ⟨x.2, hx⟩
+
+/-- everything that makes `setup_optimizer` raise because of a name or a key -/
+theorem setup_errors (mkPrior : OptVal α → Option (Prior α)) (s : St String α) (hw : WF s) (hd : DisjD s)
+    (fitting derive : List (String × OptVal α)) :
+    ((∃ kv ∈ fitting, splitKey kv.1 = none) →
+      (setupOptimizer mkPrior s fitting derive).2.1 ≠ .ok ∧ (setupOptimizer mkPrior s fitting derive).1 = s ∧
+      (setupOptimizer mkPrior s fitting derive).2.2 = []) ∧
+    ((∃ kv ∈ fitting, ∃ a b, splitKey kv.1 = some (a, b) ∧ ¬ Known s a) →
+      (setupOptimizer mkPrior s fitting derive).2.1 ≠ .ok) ∧
+    ((∃ kv ∈ derive, splitKey kv.1 = none) → (setupOptimizer mkPrior s fitting derive).2.1 ≠ .ok) ∧
+    ((∃ kv ∈ derive, ∃ a, splitKey kv.1 = some (a, "compute") ∧ ¬ KnownD s a) →
+      (setupOptimizer mkPrior s fitting derive).2.1 ≠ .ok) := by
+  refine ⟨?_, ?_, ?_, ?_⟩
+  · intro h
+    obtain ⟨e, he⟩ := parseFitting_bad_key mkPrior fitting [] h
+    unfold setupOptimizer
+    simp only [he]
+    exact ⟨parseFitting_error_ne_ok mkPrior fitting [] e he, trivial, trivial⟩
+  · rintro ⟨kv, hkv, a, b, hsp, hk⟩ hok
+    obtain ⟨grp, dl, fops, hp, _, hf, hr, _, _⟩ := setup_ok_stages mkPrior s hw hd fitting derive hok
+    obtain ⟨g1, _⟩ := grp_run grp s fops hw hf
+    obtain ⟨r, hr'⟩ := mem_gkeys_exists grp a ((parseFitting_names mkPrior fitting [] grp hp).2 kv hkv a b hsp)
+    exact hk ((g1 hr).1 (a, r) hr').1
+  · intro h hok
+    obtain ⟨_, dl, _, _, hsd, _, _, _, _⟩ := setup_ok_stages mkPrior s hw hd fitting derive hok
+    rw [splitAll_none_of_bad derive h] at hsd
+    cases hsd
+  · rintro ⟨kv, hkv, a, hsp, hk⟩ hok
+    obtain ⟨grp, dl, _, _, hsd, _, _, hdr, _⟩ := setup_ok_stages mkPrior s hw hd fitting derive hok
+    have hmem := splitAll_mem derive dl hsd kv hkv a "compute" hsp
+    obtain ⟨v, hv⟩ := deriveRecs_some dl [] a (Or.inl ⟨_, hmem, rfl, rfl⟩)
+    have hd' : DisjD (applyGrp s grp) := by
+      obtain ⟨_, _, f3, f4, _⟩ := applyGrp_fields grp s
+      intro n hn
+      simp only [f3, f4] at hn ⊢
+      exact hd n hn
+    obtain ⟨d1, _⟩ := derive_run (deriveRecs dl []) (applyGrp s grp) hd'
+    have hkd := (d1 hdr).1 (a, some v) hv (by simp)
+    obtain ⟨_, _, f3, f4, _⟩ := applyGrp_fields grp s
+    apply hk
+    unfold KnownD at hkd ⊢
+    rw [f3, f4] at hkd
+    exact hkd
+
+end
+
 end Taurex.C07
